@@ -511,17 +511,22 @@ class Gen:
                 lines.append((f'W {kt} {K[kt]} {r.choice([0, 8, 16])} ' + ' '.join(f'{t}:{f}' for t, c, f in items)).rstrip())
                 T[kt] = [(c, f) for t, c, f in items]
             elif x < 0.4 and live_k:
-                # renamed once no record memoises it
-                kt = r.choice(live_k); reset_all()
+                # renamed while no record memoises it at the time of a LOOKUP: the memoising records are reset before the rename, or
+                # right after it (the stale memo words exist for a moment but no lookup meets them: the code answers correctly)
+                kt = r.choice(live_k); first = r.random() < 0.5
+                if first: reset_all()
                 K[kt] = r.choice([n for n in cnames if n != K[kt]])
                 items = lib_items(r.randrange(0, 2))
                 lines.append((f'W {kt} {K[kt]} 0 ' + ' '.join(f'{t}:{f}' for t, c, f in items)).rstrip())
                 T[kt] = [(c, f) for t, c, f in items]
+                if not first: reset_all()
             elif x < 0.6 and live_k:
                 # deleted once no record memoises it; often another class object lands on its address (arena)
-                kt = r.choice(live_k); reset_all()
+                kt = r.choice(live_k); first = r.random() < 0.5
+                if first: reset_all()
                 lines.append(f'X {kt}')
                 oldname = K.pop(kt); T.pop(kt)
+                if not first: reset_all()
                 if mode_of[kt] == 'arena': arena_live[0] -= 1
                 if r.random() < 0.8: new_class(oldname if r.random() < 0.3 else None)
             elif x < 0.75:
@@ -539,6 +544,79 @@ class Gen:
                 users = [t for t in T if t not in K]
                 if users: t = r.choice(users); lines.append(f'X {t}'); T.pop(t)
         lookups(10)
+        return Case(name, lines)
+
+    # ---- (9) names that live in the CALLER's buffers (`@b` = $S(buffer b)): Type_New keeps the pointer.  Inside the territory of
+    #          C08_names_are_texts_partial: a buffer is written (Z) only while no __Name cell and no triple name word points into
+    #          it — name buffers are filled once before their first use and then left alone, scratch buffers are written at any time
+    def borrow_case(self, name, rounds):
+        r = self.rng
+        lines = self.prelude()
+        libs = [c for c in self.names if c != 'Terminal']
+        texts = ['Foo', 'Bar', 'Show', 'Hash', 'Qux', 'Alpha', 'Cmp', 'Foo']
+        nb = r.randrange(3, 8)
+        btext = {}
+        for b in range(nb): btext[b] = r.choice(texts); lines.append(f'Z {b} {btext[b]}')
+        scratch = list(range(40, 44))
+        K = {}; T = {}; nxt = [0]; ck = [0]; rt = []
+        def fresh():
+            nxt[0] += 1; return nxt[0]
+        def flags(n=None):
+            n = n or r.randrange(1, 4); return ''.join(r.choice('011') for _ in range(n))
+        def nm():
+            if r.random() < 0.6: b = r.randrange(nb); return f'@{b}', btext[b]
+            t = r.choice(texts); return t, t
+        for _ in range(r.randrange(1, 4)):
+            tok, text = nm(); lines.append(f'C {ck[0]} {tok}'); rt.append((f'r.{ck[0]}', text)); ck[0] += 1
+        def new_class():
+            tid = fresh(); tok, text = nm()
+            lines.append(f'N {tid} {r.choice(["raw", "junk", "alloc"])} {tok} {r.choice([0, 8])}')
+            K[tid] = text; T[tid] = []
+        def row():
+            items = []
+            for kt in r.sample(list(K), min(len(K), r.randrange(1, 4))): items.append((f't.{kt}', K[kt], flags()))
+            for t, text in r.sample(rt, r.randrange(0, len(rt) + 1)): items.append((t, text, flags()))
+            for c in r.sample(libs, r.randrange(0, 3)): items.append((f'b.{c}', c, flags(self.arity.get(c, 1))))
+            r.shuffle(items); return items
+        def new_type():
+            tid = fresh(); tok, text = nm(); items = row()
+            lines.append((f'N {tid} {r.choice(["raw", "junk", "alloc", "root"])} {tok} {r.choice([0, 8])} ' + ' '.join(f'{t}:{f}' for t, c, f in items)).rstrip())
+            T[tid] = [(c, f) for t, c, f in items]
+        def lookups(n):
+            users = [t for t in T if t not in K] or list(T)
+            for _ in range(n):
+                tid = r.choice(users)
+                x = r.random()
+                if x < 0.5 and K: kt = r.choice(list(K)); tok, text = f't.{kt}', K[kt]
+                elif x < 0.75 and rt: tok, text = r.choice(rt)
+                else: c = r.choice(libs); tok, text = f'b.{c}', c
+                first = next((f for c, f in T[tid] if c == text), None)
+                kk = r.randrange(len(first)) if first else 0
+                e = r.choice('IiPpMmQq')
+                lines.append(f'{e} {tid} {tok}' + (f' {kk}' if e in 'MmQq' else ''))
+                if r.random() < 0.15: lines.append(f'Z {r.choice(scratch)} {r.choice(texts)}')      # a buffer nothing points into
+                if r.random() < 0.06: b = r.randrange(nb); lines.append(f'Z {b} {btext[b]}')            # a name buffer re-written with the text it holds: no character changes
+        for _ in range(3): new_class()
+        for _ in range(3): new_type()
+        for rd in range(rounds):
+            lookups(r.randrange(4, 12))
+            x = r.random()
+            if x < 0.3: new_type()
+            elif x < 0.45 and len(K) < 6: new_class()
+            elif x < 0.7:
+                # a type re-constructed in place, its name again in a (never rewritten) caller's buffer or a literal
+                users = [t for t in T if t not in K]
+                if users:
+                    tid = r.choice(users); tok, text = nm(); items = [i for i in row() if i[0] != f't.{tid}']
+                    lines.append((f'W {tid} {tok} 0 ' + ' '.join(f'{t}:{f}' for t, c, f in items)).rstrip())
+                    T[tid] = [(c, f) for t, c, f in items]
+            elif x < 0.8:
+                users = [t for t in T if t not in K]
+                if len(users) > 2: t = r.choice(users); lines.append(f'X {t}'); T.pop(t)
+            else:
+                for t in list(T):
+                    if r.random() < 0.3: lines.append(f'R {t}')
+        lookups(8)
         return Case(name, lines)
 
 class C08(Spec):
@@ -570,6 +648,8 @@ class C08(Spec):
                   'type objects, constructions on fresh or re-used addresses, re-constructions in place, deletions — every answer is a function of the '
                   'declarations and names in force, under the executable hypothesis Heap.safe (a name is written at an address only if every memoised '
                   'pointer to it already reads as that name); without it C08_memo_stale_refuted (known finding KF-C08-class-memo-stale); '
+                  'C08_world_history_resumes: after ANY prefix, once the executable heap invariant holds again (memoising records reset or re-constructed) the rest is answered by the spec; '
+                  'C08_names_are_texts_partial: a heap with the PROVENANCE of its char* words (XHeap: which caller\'s buffer a __Name cell / a triple name word points into; Type_New with $S(buf) and instances given by their class objects; the caller\'s writes) answers as the value-level history under the executable hypothesis XHeap.quiet (a write hits only buffers nothing points into); without it C08_borrowed_name_refuted (known finding KF-C08-borrowed-name); '
                   'C08_ptr_eq_is_value_eq, C08_heap_construct_is_type_new tie the heap level to the pointer comparison and to the word-level Type_New; '
                   'C08_null_class; C08_concurrent / C08_concurrent_complete / C08_wait_free: the same '
                   'results under every interleaving of atomic word accesses of any number of threads, every thread completing within 2n+10 own steps per '
@@ -594,7 +674,7 @@ class C08(Spec):
             'the last one made on the old type; (7) class names in a prefix relation (Show/Showable, Format/FormatError, S/Size, …; library objects and '
             'run-time classes), the longer one declared alone, before and after the shorter one; (8) type objects used as CLASSES of other types '
             '(class token t.<tid>): re-constructed under the old name while memoised, renamed / deleted / replaced on the same address after the '
-            'memoising records were reset, with lookups through old and new names; NULL as the class on records where the answer is defined. '
+            'memoising records were reset, with lookups through old and new names; NULL as the class on records where the answer is defined; (9) type and class names passed as $S(caller\'s buffer) (name token @b; the buffer filled before its first use and then left alone) next to literal names, class objects and types re-constructed with either kind, the caller writing (op Z) into buffers that no __Name cell and no triple name word points into — the O line of Z lists the cells and triples that point into the buffer, from raw pointer comparison in C and from the provenance tables of the model. '
             'non-trivial = a lookup whose observation is a found instance, an exception, a '
             'cast result or a thread run; distinct = distinct (declared row of the type, op without type number, observation); a re-construction counts by '
             '(declaration before, declaration after, outcome).')
@@ -606,6 +686,7 @@ class C08(Spec):
                    'member offsets are offsetof() values inside the class struct (an out-of-struct offset is undefined behaviour and is not generated)',
                    'a cached class is never looked up on a `self` that is not a type object (Type_Instance reads the cache word before any check)',
                    'a type object that other types use as a CLASS is given another NAME (re-construction in place under another name; deletion followed by another type object on its address) only when no type record memoises its address (the generator resets the memoising records first): known finding KF-C08-class-memo-stale (witness corpus/kf_c08_class_renamed.ops; theorem hypothesis Heap.safe of C08_world_history, refuted without it by C08_memo_stale_refuted)',
+                   'the characters of a name passed to Type_New ($S(buf), a String object) are not written or released while a __Name cell or a triple name word points at them: Type_New keeps the caller\'s pointer as the type\'s name and copies the class\'s name pointer into every triple — known finding KF-C08-borrowed-name (witness corpus/kf_c08_borrowed_name.ops; theorem hypothesis XHeap.quiet of C08_names_are_texts_partial, refuted without it by C08_borrowed_name_refuted). Names in caller-owned buffers that are left alone, writes into buffers nothing points into, and re-writes of a name buffer with the very text it holds (no character changes; outside the letter of XHeap.quiet, exercised for the provenance lists of the Z observation), ARE generated (family borrow); instance objects live in harness storage that outlives the type (a run-time type keeps the instance pointers it is given)',
                    'NULL is not a class: type_instance(T, NULL) is probed only where Type_Scan does not read through the NULL pointer (C08_null_class says what it answers)',
                    'malloc does not hand out the address of a deleted run-time type object again while a memoised pointer to it dangles (address reuse is exercised deterministically through the harness arena)',
                    'storage handed to construct has the size Type_Alloc reserves (CELLO_NBUILTINS + CELLO_MAX_INSTANCES + 1 cells) and a header naming Type; no lookup is made on a deleted type; GC-managed types (new) are kept reachable from the stack',
@@ -633,6 +714,8 @@ class C08(Spec):
             cs.append(g.reuse_case(f'reuse{boost}_{i}', 8 if quick else 12))
         for i in range((2 if quick else 20) * boost):
             cs.append(g.prefix_case(f'prefix{boost}_{i}'))
+        for i in range((4 if quick else 60) * boost):
+            cs.append(g.borrow_case(f'borrow{boost}_{i}', 12 if quick else 20))
         for i in range((2 if quick else 10) * boost):
             cs.append(g.thread_case(f'thr{boost}_{i}', 16, 60 if quick else 600, 6 if quick else 10))
         if boost > 1:
